@@ -11,8 +11,16 @@ Tie:  H  hand model `lean/XrsVerif/Model/Trim.lean` (the four directional scans,
          driver against the numba kernels (float64 rasters 0x0..7x7, 16 lists each) and compare the four results.
 Oracle (independent of the model, from the property statement): the bounding box of the kept /
 selected cells computed with numpy set logic (NaN excluded when listed); the result must equal
-`raster[t:b+1, l:r+1]` cell for cell, with the coordinates and attrs of those positions, and must be
-empty when nothing is kept / selected.
+the positional window `[t:b+1, l:r+1]` of the input cell for cell, with *every* coordinate variable of the
+input restricted to those positions (and no other), the attrs of each coordinate variable, the raster's
+attrs, dims and the requested name, and must be empty when nothing is kept / selected.
+
+Coordinate-kind dimension (every stream through the public wrappers): `ck` / `zck` of a case describe what
+the raster carries besides its cells -- dims y,x / other names / none given; per axis ascending, descending,
+fractional, int, datetime, string, duplicated, unsorted labels or no coordinate variable at all; attrs on the
+coordinate variables; scalar coordinates (spatial_ref, band, time); 2-D lon / lat on (y, x) or transposed;
+extra 1-D coordinates along one dim; the input's `.name`; the raster attrs (`gen_ck`, `build`).  The model
+(`Raster.coords`, `window`) receives every coordinate variable with its labels as codes.
 
 Generators: shapes 1x1..6x6 incl. single row / column; dtypes f8/f4/i8/i4; values {0,1,2,3,NaN,+-inf};
 a target box placed so that the kept cells touch every subset of the four raster borders; nothing kept;
@@ -761,7 +769,9 @@ def declare(r):
         "NaN is not a zone id (crop compares with ==); an empty result is compared as 'empty' whatever its 0-sized shape",
         "crop with a values raster of another shape than zones: model = Python slice semantics, no oracle",
     ]
-    r.trusted[:] = ["numba compilation of _trim/_crop", "xarray positional slicing of DataArray (coords/attrs carried)"]
+    r.trusted[:] = ["numba compilation of _trim/_crop",
+                    "xarray positional slicing of a DataArray (what `raster[t:b+1, l:r+1]` does to cells, labels and every "
+                    "coordinate variable is the model's `window`; observed on rasters of every coordinate kind, not proved)"]
 
 
 def run(r, n_override=None):
@@ -775,6 +785,12 @@ def run(r, n_override=None):
               "of the dtype (ids >= 1e5, limits, 2^53, fractions) + foreign entries (nan, +-inf, negative, out of range, "
               "fractional) + aliases a cast would wrap onto a cell value, decoy cells next to the listed values "
               "(nextafter, rel 1e-5..1e-9, abs 1e-8..1e-12, +-1), modes box/frame/none/all/random; "
+              "every raster of these streams has a coordinate kind: dims y,x / lat,lon / row,col / x,y / northing,easting / "
+              "none given (7%); per axis labels ascending / descending / fractional / int / datetime / string / duplicated "
+              "(monotonic or not) / unsorted / no coordinate variable; half carry more: attrs on the coordinate variables, "
+              "scalar coordinates spatial_ref / band / time, 2-D lon / lat on (y,x) or transposed, extra 1-D coordinates along "
+              "y / x; input name None / set; raster attrs std / empty / rich; crop zones with the values' coordinates (50%), "
+              "none (15%) or their own (35%); the exhaustive stream rotates through 11 fixed kinds; "
               "plus il:trim / il:crop (layer T3): the ILang programs generated from _trim / _crop run by the Lean driver "
               "vs the numba kernels on float64 rasters 0x0..7x7 (empty, single row/column/cell, box / single hit / none / "
               "all / random) x 16 lists each (empty, NaN, duplicates, +-inf, -0.0, absent values), results compared exactly; "
